@@ -203,7 +203,7 @@ struct Table {
 
 // ---------------------------------------------------------------- macros
 std::string run_probe(Ctx &ctx, const std::string &exe, const std::string &script, int level, int &status) {
-    std::string cmd = "ASAN_OPTIONS=detect_leaks=0:exitcode=99 " + exe + " " + script + " " + std::to_string(level) + " 2>/dev/null";
+    std::string cmd = "ASAN_OPTIONS=detect_leaks=0:exitcode=99:allocator_may_return_null=1 " + exe + " " + script + " " + std::to_string(level) + " 2>/dev/null";
     FILE *p = popen(cmd.c_str(), "r");
     std::string out;
     if (!p) { status = -1; return out; }
@@ -236,6 +236,7 @@ struct C15 : Harness {
                 script += "R " + std::to_string(v) + " " + std::to_string(sz) + "\n";
                 ctx.label(!live[v] ? "REALLOC-of-NULL" : sz == 0 ? "REALLOC-to-0" : "REALLOC-resize");
                 live[v] = sz != 0;
+            } else if (op.name == "O") { script += "O " + std::to_string(v) + "\n"; ctx.label("CALLOC-byte-count-overflows"); live[v] = false;
             } else if (op.name == "F") { script += "F " + std::to_string(v) + "\n"; ctx.label(live[v] ? "FREE-live" : "FREE-NULL"); live[v] = false; }
             else if (op.name == "S") { std::string t = op.strs.empty() ? "" : op.strs[0]; script += "S " + std::to_string(v) + " " + (t.empty() ? "-" : t) + "\n"; live[v] = true; }
         }
@@ -310,7 +311,8 @@ struct C15 : Harness {
             Op op;
             long k = *range(0, 99), v = *range(0, 7);
             if (k < 20) { op.name = "M"; op.ints = {v, *gen_size()}; }
-            else if (k < 32) { op.name = "C"; op.ints = {v, *range(0, 3), *range(0, 20)}; }
+            else if (k < 30) { op.name = "C"; op.ints = {v, *range(0, 3), *range(0, 20)}; }
+            else if (k < 32) { op.name = "O"; op.ints = {v}; }
             else if (k < 62) { op.name = "R"; op.ints = {v, *gen_size()}; }
             else if (k < 88) { op.name = "F"; op.ints = {v}; }
             else { op.name = "S"; op.ints = {v}; op.strs.push_back(*text_over("abcXYZ019_./-", 60)); }
